@@ -108,3 +108,83 @@ def diffev(h):
 def diffev2(h):
     _wrapper(h, DE + '::diffev2', [(DE, 'DifferentialEvolutionSolver'), (DE, 'DifferentialEvolutionSolver2')],
              lambda f, cost, x0, cb: h.call(f, cost, x0, 4, full_output=1, disp=0, callback=cb))
+
+
+# ---------------------------------------------------------------------------- lattice / buckshot / sparsity
+EN = 'mystic/ensemble.py'
+AE = 'mystic/abstract_ensemble_solver.py'
+
+
+def _ensemble_wrapper(h, fname, cls):
+    """the ensemble one-liners return exactly the ensemble's reported best solution / energy / generation and evaluation
+    counts, the TOTAL evaluation count summed over the members, and a warnflag that names a limit which is reached;
+    Solve is invoked once with the caller's cost and callback after every setting (bounds, constraints, penalty)"""
+    if not h.is_sym():
+        h.unsupported('symbolic only')
+    best = h.list_real('best_solution', nd=True)
+    h.assume('len(best) >= 2', best=best)
+    bestE = h.real('best_energy', inf=True)
+    gens, evals, maxiter, maxfun = h.int('generations'), h.int('evaluations'), h.int('maxiter_final'), h.int('maxfun_final')
+    e1, e2 = h.int('member_1_evaluations'), h.int('member_2_evaluations')
+    h.assume('gens >= 0 and evals >= 0 and e1 >= 0 and e2 >= 0', gens=gens, evals=evals, e1=e1, e2=e2)
+    cost = h.fn('COST', ret='real')
+    cb = h.fn('CALLBACK', ret='none')
+    cons, pen = h.fn('CONSTRAINTS', ret='same'), h.fn('PENALTY', ret='real')
+    log = {'solve': [], 'sets': [], 'late': 0}
+
+    def init(I, c, args, kwargs):
+        I.st.heap[args[0]].update(_stepmon=I.st.alloc('obj', {'_x': I.st.alloc('clist', [])}), id=None)
+        return None
+
+    def solve(I, c, args, kwargs):
+        s = args[0]
+        log['solve'].append((args[1] if len(args) > 1 else kwargs.get('cost'), kwargs.get('callback')))
+        n = I.st.fresh('stepmon_records', 'int')
+        I.st.assume(n.t == gens.t + 1)
+        z3 = __import__('z3')
+        mk = lambda nm: I.st.alloc('slist', {'len': n.t, 'arr': z3.Array(nm, z3.IntSort(), z3.RealSort()), 'ek': 'real'})      # noqa: E731
+        cell = I.st.heap[s]
+        mon = I.st.alloc('obj', {'_x': mk('smx'), '_y': mk('smy'), 'k': None})
+        mon.cls = h.get(MONF + '::Monitor').info
+        _ = mon.cls.bases
+        cell.update(_bestSolution=best, _bestEnergy=bestE, _fcalls=I.st.alloc('clist', [evals]), _maxiter=maxiter, _maxfun=maxfun,
+                    _energy_history=None, _solution_history=None, _stepmon=mon,
+                    _allSolvers=I.st.alloc('clist', [I.st.alloc('obj', {'evaluations': e1, 'generations': 1}),
+                                                     I.st.alloc('obj', {'evaluations': e2, 'generations': 1})]))
+        return None
+
+    def setter(name):
+        def f(I, c, args, kwargs):
+            log['sets'].append((name, list(args[1:]), dict(kwargs)))
+            if log['solve'] and name not in ('Solution', 'Terminated'):
+                log['late'] += 1
+            return '' if name == 'Terminated' else None
+        return f
+    table = {(EN, cls + '.__init__'): init, (AS, 'AbstractSolver.Solve'): solve, (AE, 'AbstractEnsembleSolver.Terminated'): setter('Terminated')}
+    for m in SET_METHODS:
+        table[(AS, 'AbstractSolver.' + m)] = setter(m)
+    for m in ('SetNestedSolver', 'SetDistribution', 'SetInitialPoints', 'SetRandomInitialPoints'):
+        table[(AE, 'AbstractEnsembleSolver.' + m)] = setter(m)
+    h.set_summaries(table)
+    bounds = h.clist([h.tup(0.0, 1.0), h.tup(-1.0, 2.0)])
+    r = h.call(h.get(EN + '::' + fname), cost, 2, 2, bounds=bounds, full_output=1, disp=0, callback=cb, constraints=cons, penalty=pen)
+    e = dict(r=r, best=best, bestE=bestE, gens=gens, evals=evals, maxiter=maxiter, maxfun=maxfun, e1=e1, e2=e2)
+    h.check('C05/solve-invoked-once-with-the-callers-cost-and-callback-after-all-settings',
+            'n == 1 and late == 0 and ok', n=len(log['solve']), late=log['late'],
+            ok=bool(log['solve']) and log['solve'][0][0] is cost and log['solve'][0][1] is cb)
+    names = [s_[0] for s_ in log['sets']]
+    sr = [s_ for s_ in log['sets'] if s_[0] == 'SetStrictRanges']
+    h.check('C09/bounds-constraints-and-penalty-given-to-the-ensemble', 'ok',
+            ok=(names.count('SetStrictRanges') == 1 and any(s_[0] == 'SetConstraints' and s_[1][0] is cons for s_ in log['sets'])
+                and any(s_[0] == 'SetPenalty' and s_[1][0] is pen for s_ in log['sets'])))
+    if sr:
+        h.check('C02/strict-ranges-are-the-callers-bounds', 'seq_eq(lo, wl) and seq_eq(hi, wh)', lo=sr[0][1][0], hi=sr[0][1][1],
+                wl=h.clist([0.0, -1.0]), wh=h.clist([1.0, 2.0]))
+    h.check('C01/returns-the-reported-best-solution-energy-and-counters',
+            'len(r) == 6 and seq_eq(r[0], best) and r[1] == bestE and r[2] == gens and r[3] == evals', **e)
+    h.check('C09/total-evaluation-count-is-the-sum-over-the-members', 'r[5] == e1 + e2', **e)
+    h.check('C05/warnflag-names-a-limit-that-is-reached', 'r[4] == (1 if evals >= maxfun else (2 if gens >= maxiter else 0))', **e)
+
+
+for _f, _c in (('lattice', 'LatticeSolver'), ('buckshot', 'BuckshotSolver'), ('sparsity', 'SparsitySolver')):
+    contract('C09/' + _f, ['C09', 'C01', 'C05', 'C02'], EN + '::' + _f, native=False)(lambda h, f=_f, c=_c: _ensemble_wrapper(h, f, c))
